@@ -1,0 +1,32 @@
+//go:build verif
+
+package store
+
+import (
+	"context"
+	"database/sql"
+
+	"go.uber.org/zap"
+
+	"github.com/zilliztech/milvus-cdc/core/log"
+)
+
+// NewVerifMySQLMetaStore builds the MySQL-backed factory around an injected *sql.DB.
+func NewVerifMySQLMetaStore(ctx context.Context, db *sql.DB, rootPath string) (*MySQLMetaStore, error) {
+	s := &MySQLMetaStore{}
+	s.log = log.With(zap.String("meta_store", "mysql")).Logger
+	s.db = db
+	txnMap := make(map[any]func() *sql.Tx)
+	var err error
+	s.taskInfoStore, err = NewTaskInfoMysqlStore(ctx, db, rootPath, txnMap)
+	if err != nil {
+		return nil, err
+	}
+	s.taskCollectionPositionStore, err = NewTaskCollectionPositionMysqlStore(ctx, db, rootPath, txnMap)
+	if err != nil {
+		return nil, err
+	}
+	s.txnMap = txnMap
+	s.replicateStore = &MySQLReplicateStore{log: s.log, db: db, rootPath: rootPath}
+	return s, nil
+}
